@@ -9,8 +9,9 @@ CONSTANTS
  SkipFlag = TRUE
  CheckC20 = FALSE
  EmptyBlockFlushes = TRUE
+ EmptyLooksAtChildren = TRUE
  WalkerCapturesNext = TRUE
 SPECIFICATION MSpec
-INVARIANTS Inv_C02_TextInDocOrderOnce Inv_C04_NoHiddenOrSkipped Inv_C07_TagsBalanced Inv_C07_ChainsMirrorSource Inv_C03_SimpleParaWhole Inv_StepEqualsRun
+INVARIANTS Inv_C02_TextInDocOrderOnce Inv_C04_NoHiddenOrSkipped Inv_C07_TagsBalanced Inv_C07_ChainsMirrorSource Inv_C03_SimpleParaWhole Inv_C08_MediaAllEmitted Inv_StepEqualsRun
 CONSTRAINT MDump
 CHECK_DEADLOCK FALSE
